@@ -291,6 +291,12 @@ pub enum Kind {
     Nest { depth: u32, closed: bool },
     /// valid encoding repeated / extended with a long tail
     Extend { seed: u32, tail: u32, byte: u8 },
+    /// text = Base58Check (valid checksum) of an arbitrary payload, incl. the empty one: reaches the code behind
+    /// the checksum test of the WIF / address / extended-key decoders
+    B58Check(#[serde(with = "crate::gen::hexser")] Vec<u8>),
+    /// valid binary encoding with a valid-checksum re-wrap after mutation (Base58Check decoders): payload of the
+    /// valid string mutated, checksum recomputed
+    B58Rewrap { seed: u32, muts: Vec<Mutation> },
 }
 
 #[derive(Clone, Debug, Serialize, Deserialize)]
@@ -382,6 +388,22 @@ pub fn input_of(dec: &Decoder, kind: &Kind) -> (Vec<u8>, String) {
             }
             as_feed(v)
         }
+        Kind::B58Check(payload) => {
+            let t = codec::base58check_encode(payload);
+            (t.as_bytes().to_vec(), t)
+        }
+        Kind::B58Rewrap { seed, muts } => {
+            let v = (dec.valid)(*seed);
+            let text = String::from_utf8_lossy(&v).to_string();
+            match codec::base58check_decode(&text) {
+                Some(mut payload) => {
+                    apply_mutations(&mut payload, muts);
+                    let t = codec::base58check_encode(&payload);
+                    (t.as_bytes().to_vec(), t)
+                }
+                None => as_feed(v),
+            }
+        }
         Kind::Extend { seed, tail, byte } => {
             let mut v = (dec.valid)(*seed);
             v.extend(std::iter::repeat(*byte).take(*tail as usize));
@@ -396,7 +418,7 @@ impl Property for C09 {
 
     fn rule() -> String {
         format!(
-            "{} decoding entry points (every public from_bytes / from_hex / from_string / from_wif / from_der / from_compact_bytes / from_compact_hex / from_json_string / from_asm_string / from_outpoint_bytes / from_chunks constructor, ECIES ciphertexts in both modes followed by decrypt, AES with key/IV/message of any length, the three digest entry points with digests of any length, serde JSON/CBOR entry points, derivation path text, seeds). Inputs: empty and all 1-byte inputs exhaustively, random bytes and text, every kind of prefix of generated valid encodings, byte-level mutations, any region overwritten by a compact-size integer in every form with extreme values (up to 2^64-1), transaction count/length fields substituted, long tails, nested conditionals to depth 100 000. Oracle: the call returns (no panic - catch_unwind; no abort / stack overflow - supervised child with journal), and peak live heap of the call <= {} KiB + {} x input length (+ a constant serde pre-allocation allowance for the CBOR decoders; counting allocator). Non-trivial = a prefix / mutant / substitution of a valid encoding, or an input the decoder accepted... every case counts its decoder; distinct by hash of the serialised case.",
+            "{} decoding entry points (every public from_bytes / from_hex / from_string / from_wif / from_der / from_compact_bytes / from_compact_hex / from_json_string / from_asm_string / from_outpoint_bytes / from_chunks constructor, ECIES ciphertexts in both modes followed by decrypt, AES with key/IV/message of any length, the three digest entry points with digests of any length, serde JSON/CBOR entry points, derivation path text, seeds). Inputs: empty and all 1-byte inputs exhaustively, random bytes and text, every kind of prefix of generated valid encodings, byte-level mutations, any region overwritten by a compact-size integer in every form with extreme values (up to 2^64-1), transaction count/length fields substituted, long tails, Base58Check strings with a valid checksum over arbitrary and mutated payloads (incl. the empty payload), nested conditionals to depth 100 000. Oracle: the call returns (no panic - catch_unwind; no abort / stack overflow - supervised child with journal), and peak live heap of the call <= {} KiB + {} x input length (+ a constant serde pre-allocation allowance for the CBOR decoders; counting allocator). Non-trivial = a prefix / mutant / substitution of a valid encoding, or an input the decoder accepted... every case counts its decoder; distinct by hash of the serialised case.",
             decoders().len(),
             MEM_A / 1024,
             MEM_K
@@ -415,7 +437,7 @@ impl Property for C09 {
     }
 
     fn exhaustive_spaces(_tier: Tier) -> Vec<String> {
-        vec!["every decoder x the empty input and all 256 one-byte inputs".into(), "every decoder x every prefix of two valid encodings".into(), "script-shaped decoders x nesting depths up to 100 000".into()]
+        vec!["every decoder x the empty input and all 256 one-byte inputs".into(), "every decoder x every prefix of two valid encodings".into(), "Base58Check decoders x valid-checksum strings over payloads of every length 0..=90".into(), "script-shaped decoders x nesting depths up to 100 000".into()]
     }
 
     fn exhaustive(tier: Tier, shard: usize, nshards: usize, f: &mut dyn FnMut(Case) -> bool) {
@@ -444,6 +466,17 @@ impl Property for C09 {
                         return;
                     }
                     cut += step;
+                }
+            }
+            if matches!(d.name, "PrivateKey::from_wif" | "P2PKHAddress::from_string" | "ExtendedPrivateKey::from_string" | "ExtendedPublicKey::from_string" | "serde_json P2PKHAddress") {
+                for len in 0..=90usize {
+                    for fill in [0x00u8, 0x80, 0x01] {
+                        idx += 1;
+                        let payload: Vec<u8> = (0..len).map(|i| if i == 0 { fill } else { fill.wrapping_add(i as u8) }).collect();
+                        if idx % nshards == shard && !f(Case { dec: di as u8, kind: Kind::B58Check(payload) }) {
+                            return;
+                        }
+                    }
                 }
             }
             if d.name.contains("Script") || d.name.starts_with("Transaction::from_bytes") || d.name.starts_with("TxOut") {
@@ -488,6 +521,8 @@ impl Property for C09 {
             8 => (any::<u32>(), any::<u16>(), big, 0u8..4).prop_map(|(seed, field, value, form)| Kind::Subst { seed, field, value, form }),
             1 => (1u32..2000, any::<bool>()).prop_map(|(depth, closed)| Kind::Nest { depth, closed }),
             2 => (any::<u32>(), prop_oneof![3 => 0u32..100, 1 => 100u32..70_000], any::<u8>()).prop_map(|(seed, tail, byte)| Kind::Extend { seed, tail, byte }),
+            6 => prop::collection::vec(any::<u8>(), 0..90).prop_map(Kind::B58Check),
+            4 => (any::<u32>(), prop::collection::vec(mutation(), 1..3)).prop_map(|(seed, muts)| Kind::B58Rewrap { seed, muts }),
         ];
         (0..n, kind).prop_map(|(dec, kind)| Case { dec, kind }).boxed()
     }
@@ -522,6 +557,7 @@ impl Property for C09 {
             Kind::Overwrite { .. } | Kind::Subst { .. } => o.nt("length-field-substitution"),
             Kind::Nest { .. } => o.nt("nest"),
             Kind::Extend { .. } => o.nt("extended"),
+            Kind::B58Check(_) | Kind::B58Rewrap { .. } => o.nt("valid-checksum-wrong-payload"),
         }
         let _ = (Bytes::Lit(vec![]), gt::pad_out(0), gs::count(&[]), El::Op(0));
         Ok(o)
